@@ -64,6 +64,8 @@ pub struct Oracle {
     pub leader_first_seen: BTreeSet<(u32, u64)>,
     /// event number at which (node, term) was first seen in the Leader role
     pub leader_seen_at: BTreeMap<(u32, u64), usize>,
+    /// virtual time of that sighting (set by the cluster after the turn)
+    pub leader_seen_ms: BTreeMap<(u32, u64), u64>,
     pub prev_role: BTreeMap<u32, RoleKind>,
     /// quorums actually used: ("election", term, members) / ("commit", term of the leader, holders)
     pub used_quorums: Vec<(String, u64, u64, BTreeSet<u32>, BTreeSet<u32>)>,
@@ -190,6 +192,28 @@ impl Oracle {
         }
     }
 
+    /// One value published on `node`'s leader-change watch.
+    pub fn on_notification(&mut self, node: u32, value: Option<(u32, u64)>) {
+        let Some((lid, term)) = value else { return };
+        let prev = self.notified.get(&node).copied();
+        if prev == Some((lid, term)) {
+            return;
+        }
+        if let Some((_, pt)) = prev {
+            if term < pt {
+                self.violate("C31", format!("dec{node}"), format!("node {node} was notified of term {term} after term {pt}"));
+            }
+        }
+        self.notified.insert(node, (lid, term));
+        let set = self.notified_by_term.entry(term).or_default();
+        set.insert(lid);
+        if set.len() > 1 {
+            let s = format!("{set:?}");
+            self.violate("C31", format!("two{term}"), format!("notifications name several leaders for term {term}: {s}"));
+        }
+        self.pending_notifications.push((node, lid, term));
+    }
+
     pub fn on_join_answer(&mut self, node: u32, leader: u32, success: bool) {
         self.joins.push((node, leader, success));
     }
@@ -264,35 +288,10 @@ impl Oracle {
         }
         self.check_c01();
 
-        // ---- C31: leader notifications
+        // ---- C31: leader notifications (every value published, fed by the cluster through
+        //      `on_notification`; the sampled watch value is only a fallback)
         if let Some((lid, term)) = v.notified_leader {
-            let prev = self.notified.get(&v.id).copied();
-            if prev != Some((lid, term)) {
-                if let Some((_, pt)) = prev {
-                    if term < pt {
-                        self.violate(
-                            "C31",
-                            format!("dec{}", v.id),
-                            format!(
-                                "node {} was notified of term {} after term {}",
-                                v.id, term, pt
-                            ),
-                        );
-                    }
-                }
-                self.notified.insert(v.id, (lid, term));
-                let set = self.notified_by_term.entry(term).or_default();
-                set.insert(lid);
-                if set.len() > 1 {
-                    let s = format!("{set:?}");
-                    self.violate(
-                        "C31",
-                        format!("two{term}"),
-                        format!("notifications name several leaders for term {term}: {s}"),
-                    );
-                }
-                self.pending_notifications.push((v.id, lid, term));
-            }
+            self.on_notification(v.id, Some((lid, term)));
         }
 
         // ---- C05/C09: record entries the leader treats as committed
